@@ -7,6 +7,8 @@ EXPLANATION = (
     "(the copy `request.cursor = shared_group.cursor` lies on every path from the Some edge to native_readv), a member that is not the group's current client never reaches push_forwards, "
     "and every path from push_forwards to a return either writes the advanced cursor back to the group and moves to the next client, or has established that there is no group; "
     "(R-C17-membership) SharedGroup.clients is changed only by add_client / remove_client, and both places that remove members drop groups that became empty. "
+    "(R-C17-skipped) in the drop-elaborated MIR of Router::consume the queue of requests set aside with ConsumeStatus::SkipRequest is never dropped on a normal path (it is handed back to the tracker on every exit), "
+    "and the polled queue is dropped only behind pop_front()==None; "
     "NOT decided: at-most-once / completeness over join/leave histories, fairness of the strategies.")
 ASSUMPTIONS = ["rustc MIR construction is correct"]
 TECHNIQUE = "static analysis: edge-sensitive must-pass rules on the forwarder's MIR CFG, who-may-write"
@@ -18,6 +20,14 @@ def run(ctx):
     prog = ctx.progs["rumqttd"]
     ctx.guarded("R-C17-cursor", cursor, ctx, prog)
     ctx.guarded("R-C17-membership", membership, ctx, prog)
+    ctx.guarded("R-C17-skipped", skipped, ctx, prog)
+
+
+def skipped(ctx, prog):
+    """A member whose shared request was set aside (ConsumeStatus::SkipRequest) must get it back: the queue
+    of skipped requests is never dropped on a normal path of Router::consume (drop-elaborated MIR)."""
+    from .c01 import container_drops
+    container_drops(ctx, "R-C17-skipped", prog.one(r"^router::routing::Router::consume$", view="R"))
 
 
 def cursor(ctx, prog):
